@@ -335,8 +335,9 @@ def check_routes(d):
                 dense = paste_dense(tables, B, dtype)
                 lab = sorted_labels(tables)
                 full = {s: B.get(s, np.zeros(shape_of(tables, s), dtype=dtype)) for s in allvalid}
-                for form in ("list", "dict"):
-                    maps = lab if form == "list" else [dict(enumerate(l)) for l in lab]
+                for form in ("list", "dict", "dict_reversed_insertion"):
+                    # a dict labels position i by index_map[i] whatever the insertion order of its keys
+                    maps = lab if form == "list" else [dict(enumerate(l)) for l in lab] if form == "dict" else [{i: l[i] for i in reversed(range(len(l)))} for l in lab]
                     f = dict(of, route="from_dense", maps=form)
                     if needs_oddpos_error:
                         case.must_raise("oddpos_required", f, cls.from_dense, dense, maps, duals, **ckw, **kw)
@@ -488,7 +489,7 @@ def check_roundtrip(d):
     kw = symmetry_variants(sym, kind if sym in SYMS_STATIC else "generic_str")[d.get("symvar", 0) % len(symmetry_variants(sym, kind if sym in SYMS_STATIC else "generic_str"))][1]
     lab = sorted_labels(tables)
     if d.get("maps") == "dict":
-        lab = [dict(enumerate(l)) for l in lab]
+        lab = [{i: l[i] for i in reversed(range(len(l)))} for l in lab]  # keys decide, not insertion order
     if fermionic and x.oddpos:
         kw = dict(kw, oddpos=x.oddpos[0].label if len(x.oddpos) == 1 else list(x.oddpos))
     src = want if not ok else got
@@ -548,7 +549,12 @@ def check_projection(d):
     kw = dict(symmetry_variants(sym, kind)[d.get("symvar", 0) % len(symmetry_variants(sym, kind))][1])
     if odd:
         kw["oddpos"] = 9
-    lab_arg = labels if d.get("maps", "list") == "list" else [dict(enumerate(l)) for l in labels]
+    def _dict_map(l):
+        # insertion order grouped by charge (as a user building the map charge by charge would): keys decide, not order
+        order = sorted(range(len(l)), key=lambda i: (str(l[i]), -i))
+        return {i: l[i] for i in order}
+
+    lab_arg = labels if d.get("maps", "list") == "list" else [_dict_map(l) for l in labels]
     ident = G.zero(sym)
     ckw = {} if (d.get("charge_omitted") and charge == ident) else {"charge": charge}
 
